@@ -62,6 +62,10 @@ func logSub(a, b float64) float64 {
 	if math.IsInf(b, -1) {
 		return a
 	}
+	// log(1 - exp(x)) without cancellation for x close to 0
+	if x := b - a; x > -math.Ln2 {
+		return a + math.Log(-math.Expm1(x))
+	}
 	return a + math.Log1p(-math.Exp(b-a))
 }
 
